@@ -116,6 +116,32 @@ theorem C10_split_independent (hG : Good E bs) (de : Bool) (iv : Bytes) (hiv : i
 theorem C10_dec_enc (E : Bytes → Bytes) (iv m : Bytes) : dec E iv (enc E iv m) = m :=
   Spec.CFB8.dec_enc E iv m
 
+/-- … and encryption undoes decryption: for every block function, IV and byte string (any length), so the mode is
+a bijection on messages of every length — the transparency of the encrypted Conn in BOTH directions rests on the
+pair `C10_dec_enc`, `C10_enc_dec` -/
+theorem C10_enc_dec (E : Bytes → Bytes) (iv c : Bytes) : enc E iv (dec E iv c) = c := by
+  have h : ∀ (S m : Bytes), run E false S (run E true S m).1 = (m, (run E true S m).2) := by
+    intro S m
+    induction m generalizing S with
+    | nil => rfl
+    | cons x xs ih =>
+      rw [Spec.CFB8.run_cons E true, Spec.CFB8.run_cons E false]
+      have h1 : (Spec.CFB8.step E false S (Spec.CFB8.step E true S x).1).1 = x := by
+        simp [Spec.CFB8.step, BitVec.xor_assoc]
+      have h2 : (Spec.CFB8.step E false S (Spec.CFB8.step E true S x).1).2 = (Spec.CFB8.step E true S x).2 := by
+        simp [Spec.CFB8.step, BitVec.xor_assoc]
+      simp only [h1, h2, ih]
+  simp [dec, enc, h]
+
+/-- the mode is a stream: output length = input length (no padding, no header), and the output for a prefix of
+the input is the prefix of the output — byte `i` of the result depends only on bytes `≤ i` of the input, which is
+why a reader may be handed the stream in any fragments (C10_any_split) and a writer may flush at any point -/
+theorem C10_length_and_prefix (E : Bytes → Bytes) (de : Bool) (iv a b : Bytes) :
+    (run E de iv a).1.length = a.length ∧ (run E de iv (a ++ b)).1.take a.length = (run E de iv a).1 := by
+  refine ⟨Spec.CFB8.length_run E de iv a, ?_⟩
+  rw [Spec.CFB8.run_append]
+  simp
+
 /-- the same for the implementation model: decrypting, with any split and aliasing, what an encrypter
 produced with any other split and aliasing returns the message -/
 theorem C10_dec_enc_impl (hG : Good E bs) (iv : Bytes) (hiv : iv.length = bs)
